@@ -527,6 +527,26 @@ def rule_gap(ctx):
         nm, init = inits[den]
         nmx = next((z for z in walk(init) if z.get("k") == "MethodCall" and z["name"] in ("norm_max", "norm_l1", "norm_l2", "norm")), None)
         if nmx is None:
+            # the maximum written as a fold over per-lane norms: `xta.axis_iter(Axis(a)).map(|v| v.dot(&v).sqrt()).fold(0, max)`.
+            # The lanes have to be the rows of X^T R (one per feature, running over the tasks): `axis_iter(Axis(0))` / `rows()` /
+            # `outer_iter()`.  `axis_iter(Axis(1))` / `columns()` takes the norm over the features for each task.
+            lanes = next((z for z in walk(init) if z.get("k") == "MethodCall" and z["name"] in ("axis_iter", "rows", "genrows", "outer_iter", "columns", "gencolumns", "lanes")), None)
+            has_max = any((z.get("k") == "Path" and (c.dfn(z.get("def")) or {}).get("name") == "max") or (z.get("k") == "MethodCall" and z["name"] in ("max", "max_by", "fold")) for z in walk(init))
+            if lanes is not None and has_max and fn["d"]["name"] == "duality_gap_mtl":
+                axis = None
+                if lanes["name"] == "axis_iter" and lanes["args"]:
+                    a0 = peel_refs(lanes["args"][0])
+                    if a0.get("k") == "Call" and a0["args"] and peel_refs(a0["args"][0]).get("k") == "Lit":
+                        axis = str(peel_refs(a0["args"][0]).get("v")).rstrip("usize_")
+                rows = lanes["name"] in ("rows", "genrows", "outer_iter") or axis == "0"
+                cols = lanes["name"] in ("columns", "gencolumns") or axis == "1"
+                if rows:
+                    res.ok()
+                elif cols:
+                    res.violate("%s : dual-norm-over-columns" % key, "`%s` walks the columns of X^T R - l2 W (one per task) and takes each one's norm over the features: the dual norm of the l2,1 penalty is the largest *row* norm (one row per feature, the norm over the tasks); with more tasks than active features the value is too small or too large and the reported gap is not a bound" % r.e(lanes)[:50], fn_loc(fn, lanes.get("ln")))
+                else:
+                    res.undecided("%s : dual-norm-form" % key, "`%s` (fail closed)" % r.e(init)[:50], fn_loc(fn))
+                continue
             res.undecided("%s : dual-norm-form" % key, "`%s` (fail closed)" % r.e(init)[:50], fn_loc(fn))
             continue
         nd = _ndim(c, peel_refs(nmx["recv"]))
